@@ -30,6 +30,10 @@ package utils
 //@   requires r != nil
 //@   ensures already: implies(impl(r, ByteReader), result == r)
 //@   ensures wrapped: implies(!impl(r, ByteReader), is(result, *byteReader) && as(result, *byteReader) != nil && as(result, *byteReader).Reader == r)
+//@   ensures nonnil: result != nil
+// definition of the ghost bsrc: the reader whose stream result.ReadByte consumes (r itself, or
+// through byteReader.ReadByte, whose contract says it consumes exactly from its Reader field)
+//@   ensures_assumed src: bsrc(result) == r
 
 // byte-wise reading: one byte consumed and returned, or an error and nothing consumed
 //@ func (*byteReader).ReadByte
